@@ -110,6 +110,18 @@ func c14Scenarios(quick bool) []c14Scenario {
 	sc = append(sc, c14Scenario{Name: "typed-externals-shared-schema", Schemas: []string{extSchema}, Threads: []c14Thread{
 		{Kind: "transform", Schema: 0, Input: "x\ny\n", Ext: map[string]string{"n": "7", "b": "true", "s": "one"}},
 		{Kind: "transform", Schema: 0, Input: "z\n", Ext: map[string]string{"n": "8", "b": "false", "s": "two"}}}})
+	// namespaced XML: two readers binding the same URI to different prefixes (anything the readers share
+	// would mix them up), and namespaced XML next to a flat format (nodes recycled from one to the other)
+	nsA := `{` + c10Hdr("xml") + `,"transform_declarations":{"FINAL_OUTPUT":{"xpath":"/a:r/a:o","object":{"n":{"xpath":"a:N","type":"int"},"k":{"xpath":"@a:k"}}}}}`
+	nsB := `{` + c10Hdr("xml") + `,"transform_declarations":{"FINAL_OUTPUT":{"xpath":"/b:r/b:o","object":{"n":{"xpath":"b:N","type":"int"},"k":{"xpath":"@b:k"}}}}}`
+	sc = append(sc,
+		c14Scenario{Name: "xml-same-uri-different-prefixes", Schemas: []string{nsA, nsB}, Threads: []c14Thread{
+			{Kind: "transform", Schema: 0, Input: `<a:r xmlns:a="u"><a:o a:k="1"><a:N>1</a:N></a:o><a:o><a:N>2</a:N></a:o></a:r>`},
+			{Kind: "transform", Schema: 1, Input: `<b:r xmlns:b="u"><b:o b:k="3"><b:N>3</b:N></b:o><b:o><b:N>4</b:N></b:o></b:r>`}}},
+		c14Scenario{Name: "xml-namespaces+csv-different-schemas", Schemas: []string{nsA, f["csv"].Schema}, Threads: []c14Thread{
+			{Kind: "transform", Schema: 0, Input: `<a:r xmlns:a="u"><a:o a:k="1"><a:N>1</a:N></a:o><a:o><a:N>2</a:N></a:o></a:r>`},
+			{Kind: "transform", Schema: 1, Input: c10Input(f["csv"], "AB")}}},
+	)
 	// scheduling points inside xpath evaluation: record filters and field queries on a shared schema
 	navCsv := `{` + c10Hdr("csv") + `,"file_declaration":{"delimiter":",","data_row_index":1,"columns":[{"name":"N"},{"name":"J"}]},"transform_declarations":{"FINAL_OUTPUT":{"xpath":".[N!='0' and J!='z']","object":{"n":{"xpath":"N","type":"int"},"j":{"xpath":"J[.!='q']"}}}}}`
 	navEdi := `{` + c10Hdr("edi") + `,"file_declaration":{"segment_delimiter":"~","element_delimiter":"*","segment_declarations":[{"name":"A","is_target":true,"min":0,"max":-1,"elements":[{"name":"N","index":1},{"name":"J","index":2}]}]},"transform_declarations":{"FINAL_OUTPUT":{"xpath":".[N!='0' and J!='z']","object":{"n":{"xpath":"N","type":"int"},"j":{"xpath":"J"}}}}}`
